@@ -39,6 +39,10 @@ type runResult struct {
 
 // runProxy executes one Series request on a real ProxyStore over fake clients built from world w.
 func runProxy(w map[string]any, cfg map[string]any, pl *payloads, sseed int64, strategy storepb.PartialResponseStrategy, timeout time.Duration) (runResult, []*fakeStore) {
+	return runProxyReq(w, cfg, pl, sseed, strategy, false, timeout)
+}
+
+func runProxyReq(w map[string]any, cfg map[string]any, pl *payloads, sseed int64, strategy storepb.PartialResponseStrategy, disabledFlag bool, timeout time.Duration) (runResult, []*fakeStore) {
 	clients, fakes := buildStores(w, pl, sseed)
 	retr := store.LazyRetrieval
 	if vt.Str(cfg["retr"]) == "eager" {
@@ -55,6 +59,7 @@ func runProxy(w map[string]any, cfg map[string]any, pl *payloads, sseed int64, s
 		WithoutReplicaLabels:    withoutNames(w),
 		ResponseBatchSize:       int64(vt.Int(cfg["rb"])),
 		PartialResponseStrategy: strategy,
+		PartialResponseDisabled: disabledFlag,
 	}
 	err := p.Series(req, col)
 	res := runResult{warnings: col.warnings, maxMsg: col.maxMsg(), series: []any{}}
